@@ -142,6 +142,15 @@ func cmdBindings(args []string) int {
 			out[an.String()] = ab
 		}
 	}
+	// the module's functions as of now: helpers that appear later are "new" (see outerBeforeAsserts)
+	all := &fnBindings{Locals: map[string]string{}}
+	for name, fn := range e.funcsByName {
+		if fn.Pkg != nil && inModule(fn.Pkg.Pkg) && fn.Parent() == nil {
+			all.Params = append(all.Params, name)
+		}
+	}
+	sort.Strings(all.Params)
+	out["__functions__"] = all
 	data, _ := json.MarshalIndent(out, "", " ")
 	if err := os.WriteFile(bindingsPath, data, 0o644); err != nil {
 		fmt.Fprintln(os.Stderr, err)
@@ -186,4 +195,20 @@ func (e *Engine) aliases(fn *ssa.Function) (locals map[string]string, params map
 		}
 	}
 	return
+}
+
+// knownFunction: did the function exist when the bindings were recorded?
+func (e *Engine) knownFunction(name string) bool {
+	if e.bindings == nil {
+		e.bindings = loadBindings()
+	}
+	if e.knownFns == nil {
+		e.knownFns = map[string]bool{}
+		if b := e.bindings["__functions__"]; b != nil {
+			for _, n := range b.Params {
+				e.knownFns[n] = true
+			}
+		}
+	}
+	return e.knownFns[name]
 }
